@@ -598,8 +598,8 @@ class TruncStream(ChainStream):
     name = "trunc"
 
     def raw_cases(self, ctx):
-        L = ctx.scale(4, 5)
-        vals = strings("ab ", L) + ["one two three", "  lead and trail  ", "a\tb\nc  d", "x" * 50, "x" * 51, "word " * 15, "word " * 16]
+        L = ctx.scale(3, 5)
+        vals = strings("ab ", L) + ["a b a", " ab ", "a  b", "ab ab", "one two three", "  lead and trail  ", "a\tb\nc  d", "x" * 50, "x" * 51, "word " * 15, "word " * 16]
         ns = [I(n) for n in (-3, -1, 0, 1, 2, 3, 4, 5, 6, 50, 2**31 - 1, 2**31, 2**63, -(2**63), 10**30)]
         ns += ["3", " 2 ", "x", "", F(2.7), F(-0.5), None, U, True, [I(1)], "1_0"]
         ends = ["...", "", ".", "ab", "-->>", I(7), U, None, F(0.5)]
@@ -686,7 +686,7 @@ class ArrayStream(ChainStream):
 
     def raw_cases(self, ctx):
         n = ctx.scale(3, 4)
-        lists = small_lists(ELEMS[: ctx.scale(9, 11)], n)
+        lists = small_lists(ELEMS[: ctx.scale(8, 11)], n)
         out = []
         for xs in lists:
             for f in ("reverse", "sort", "sort_natural", "uniq", "compact", "first", "last", "size", "join"):
@@ -785,8 +785,8 @@ class MathStream(ChainStream):
     name = "math"
 
     def raw_cases(self, ctx):
-        ni = ctx.scale(16, len(INTS))
-        nf = ctx.scale(16, len(FLOATS))
+        ni = ctx.scale(11, len(INTS))
+        nf = ctx.scale(11, len(FLOATS))
         nums = [I(i) for i in INTS[:ni]] + [F(f) for f in FLOATS[:nf]]
         if ctx.tier != "thorough":
             nums += [I(INTS[-1]), I(2**53), F(1.0000000000000002), F(9007199254740992.0), I(10**30), F(5e-324), F(1e22)]
@@ -824,7 +824,7 @@ class RandomStream(ChainStream):
 
     def raw_cases(self, ctx):
         rng = ctx.rng_for("random")
-        n = ctx.scale(4000, 40000)
+        n = ctx.scale(4000, 120000)
         out = []
 
         def rstr(alpha="abAB ,\t", lo=0, hi=12):
